@@ -871,6 +871,21 @@ def _value_tomof(
     return mof_str, line_pos
 
 
+def _embedded_object_xmlstr(obj):
+    """
+    Return the CIM-XML string of an embedded instance or class, for use as the
+    text of a VALUE element.
+
+    An embedded instance is represented as an INSTANCE element; a path the
+    CIMInstance object may have is not part of the embedded object value (and
+    a VALUE.NAMEDINSTANCE etc. element would not be accepted back by the
+    CIM-XML parser).
+    """
+    if isinstance(obj, CIMInstance):
+        return obj.tocimxml(ignore_path=True).toxml()
+    return obj.tocimxml().toxml()
+
+
 def _cim_keybinding(key, value):
     """
     Return a keybinding value, from dict item input (key+value).
@@ -4983,7 +4998,8 @@ class CIMProperty(_CIMComparisonMixin, SlottedPickleMixin):
                             array_xml.append(_cim_xml.VALUE(None))
                     elif self.embedded_object is not None:
                         assert isinstance(v, (CIMInstance, CIMClass))
-                        array_xml.append(_cim_xml.VALUE(v.tocimxml().toxml()))
+                        array_xml.append(
+                            _cim_xml.VALUE(_embedded_object_xmlstr(v)))
                     else:
                         array_xml.append(_cim_xml.VALUE(atomic_to_cim_xml(v)))
                 value_xml = _cim_xml.VALUE_ARRAY(array_xml)
@@ -5020,7 +5036,8 @@ class CIMProperty(_CIMComparisonMixin, SlottedPickleMixin):
             else:
                 if self.embedded_object is not None:
                     assert isinstance(self.value, (CIMInstance, CIMClass))
-                    value_xml = _cim_xml.VALUE(self.value.tocimxml().toxml())
+                    value_xml = _cim_xml.VALUE(
+                        _embedded_object_xmlstr(self.value))
                 else:
                     value_xml = _cim_xml.VALUE(atomic_to_cim_xml(self.value))
 
@@ -6303,7 +6320,7 @@ class CIMParameter(_CIMComparisonMixin, SlottedPickleMixin):
                                 array_xml.append(_cim_xml.VALUE(None))
                         elif self.embedded_object is not None:
                             array_xml.append(
-                                _cim_xml.VALUE(v.tocimxml().toxml()))
+                                _cim_xml.VALUE(_embedded_object_xmlstr(v)))
                         else:
                             array_xml.append(
                                 _cim_xml.VALUE(atomic_to_cim_xml(v)))
@@ -6314,7 +6331,8 @@ class CIMParameter(_CIMComparisonMixin, SlottedPickleMixin):
                 if self.type == 'reference':
                     value_xml = _cim_xml.VALUE_REFERENCE(self.value.tocimxml())
                 elif self.embedded_object is not None:
-                    value_xml = _cim_xml.VALUE(self.value.tocimxml().toxml())
+                    value_xml = _cim_xml.VALUE(
+                        _embedded_object_xmlstr(self.value))
                 else:
                     value_xml = _cim_xml.VALUE(atomic_to_cim_xml(self.value))
 
